@@ -17,7 +17,8 @@
                  ma_partial_cmp : option comparison, ma_eqb (derived PartialEq: structural), ma_entries, ma_of_entries
      Value       value_new, value_zero, value_new_from_assets, value_new_with_assets, value_is_zero, value_coin,
                  value_set_coin, value_set_multiasset,
-                 value_checked_add : result value, value_checked_sub : result value, value_clamped_sub : value,
+                 value_checked_add : result value, value_checked_sub : result value (Err on coin OR asset underflow,
+                 the code since /repo 34fa344), value_checked_sub_legacy (before: assets clamped), value_clamped_sub : value,
                  value_partial_cmp : option comparison, value_compare : option Z (-1/0/1),
                  value_lt / value_le / value_gt / value_ge (the operators <, <=, >, >= derived from partial_cmp),
                  value_eqb (impl PartialEq for Value)
@@ -282,9 +283,26 @@ Definition value_sub_assets (a b : value) : option multiasset :=
   | None, None => None
   end.
 
-Definition value_checked_sub (a b : value) : result value :=
+(* every asset of [r] is available in [l] in at least that quantity (get_asset: missing = 0) *)
+Definition ma_covers (l r : multiasset) : bool :=
+  forallb (fun e => match e with (p, n, q) => q <=? ma_get_asset p n l end) (ma_entries r).
+
+(* Value::checked_sub before /repo 34fa344: only the coin is checked, assets are clamped like clamped_sub
+   (DESIGN section 7 row 14; kept for the refutation lemma and the regression corpus) *)
+Definition value_checked_sub_legacy (a b : value) : result value :=
   let* c := u64_sub (coin a) (coin b) in
   Ok (mkValue c (value_sub_assets a b)).
+
+(* Value::checked_sub (utils.rs, since /repo 34fa344 "fix: Value::checked_sub reports an asset underflow"):
+   coin underflow -> Err; some asset of rhs exceeding what lhs holds -> Err; otherwise as before *)
+Definition value_checked_sub (a b : value) : result value :=
+  let* c := u64_sub (coin a) (coin b) in
+  let covered :=
+    match multiasset_of b with
+    | Some r => ma_covers (match multiasset_of a with Some l => l | None => ma_new end) r
+    | None => true
+    end in
+  if covered then Ok (mkValue c (value_sub_assets a b)) else Err.
 
 Definition value_clamped_sub (a b : value) : value :=
   mkValue (u64_clamped_sub (coin a) (coin b)) (value_sub_assets a b).
